@@ -567,6 +567,70 @@ def check(model, rep, tier):
               'an extra test from another jump' % what, facts, line=h.node.lineno,
               witness='a for loop with both break and return: the return fires '
               'first and the loop keeps iterating')
+  # return: "the if statement definitely returns" is claimed for the enclosing
+  # block only when both arms do (the statements after the if are then moved
+  # into the arm that does not return -- claimed wrongly, they are never run)
+  crr = model.func(CONV + 'return_statements.py', 'ConditionalReturnRewriter.visit_If')
+  cp_ = crr.params()[0]
+  arms_ = {}
+  for a_ in ast.walk(crr.node):
+    if isinstance(a_, ast.Assign) and isinstance(a_.targets[0], ast.Tuple) and len(
+        a_.targets[0].elts) == 2 and isinstance(a_.value, ast.Call) and core.norm(
+            a_.value.func) == 'self._visit_statement_block' and len(a_.value.args) == 2 \
+        and isinstance(a_.targets[0].elts[1], ast.Name):
+      fld_ = core.norm(a_.value.args[1])
+      if fld_ in (cp_ + '.body', cp_ + '.orelse'):
+        arms_[a_.targets[0].elts[1].id] = fld_
+  claims_ = [a_ for a_ in ast.walk(crr.node) if isinstance(a_, ast.Assign) and isinstance(
+      a_.targets[0], ast.Attribute) and a_.targets[0].attr == 'definitely_returns'
+             and core.norm(a_.targets[0].value) == 'self.state[_RewriteBlock]']
+  if len(arms_) != 2 or not claims_:
+    raise core.AnalysisError('ConditionalReturnRewriter.visit_If: arms / claim not found')
+
+  def _tv(e, env):
+    """truth value of a test under env (names of the two results); None: unknown"""
+    if isinstance(e, ast.Name) and e.id in env:
+      return env[e.id]
+    if isinstance(e, ast.Constant):
+      return bool(e.value)
+    if isinstance(e, ast.UnaryOp) and isinstance(e.op, ast.Not):
+      v_ = _tv(e.operand, env)
+      return None if v_ is None else not v_
+    if isinstance(e, ast.BoolOp):
+      vs_ = [_tv(v_, env) for v_ in e.values]
+      if isinstance(e.op, ast.And):
+        return False if False in vs_ else (None if None in vs_ else True)
+      return True if True in vs_ else (None if None in vs_ else False)
+    return None
+  okc, bad_ = True, []
+  names_ = sorted(arms_)
+  for cl_ in claims_:
+    if not (isinstance(cl_.value, ast.Constant) and cl_.value.value is True):
+      # the claim is a computed value: it must be the conjunction of both results
+      for b0 in (True, False):
+        for b1 in (True, False):
+          env_ = dict(zip(names_, (b0, b1)))
+          if _tv(cl_.value, env_) is not False and not (b0 and b1):
+            okc = False
+            bad_.append(env_)
+      continue
+    conds_ = formula.path_condition(crr.node, cl_)
+    for b0 in (True, False):
+      for b1 in (True, False):
+        if b0 and b1:
+          continue
+        env_ = dict(zip(names_, (b0, b1)))
+        feasible = all(_tv(t_, env_) in (None, pol_ == 'T') for pol_, t_ in conds_
+                       if pol_ in ('T', 'F'))
+        if feasible:
+          okc = False
+          bad_.append({arms_[k]: v for k, v in env_.items()})
+  rep.check(okc, 'TPL-FLAG', '%s:returns-only-if-both-arms-return' % crr.site,
+            'an if statement is reported to the enclosing block as "definitely '
+            'returns" although one of its arms may fall through: the statements after '
+            'the enclosing if are then moved into the other arm and never run on that '
+            'path', {'claimed_when': bad_[:3]}, line=crr.node.lineno,
+            witness='if a: (if b: return 1); x = 2   /   return x -- a and not b')
   # return: do_return initialised at function entry
   rf = [s for s in sites if s.fi.qualname == 'ReturnStatementsTransformer.visit_FunctionDef']
   ok = any([core.norm(x) for x in t.tree.body][:2] == [
